@@ -34,6 +34,7 @@ import (
 	"github.com/fatedier/frp/pkg/transport"
 	netpkg "github.com/fatedier/frp/pkg/util/net"
 	"github.com/fatedier/frp/pkg/util/util"
+	"github.com/fatedier/frp/pkg/util/verifhook"
 	"github.com/fatedier/frp/pkg/util/version"
 	"github.com/fatedier/frp/pkg/util/wait"
 	"github.com/fatedier/frp/pkg/util/xlog"
@@ -238,6 +239,7 @@ func (ctl *Control) RegisterWorkConn(conn net.Conn) error {
 		}
 	}()
 
+	verifhook.At("server.control.registerWorkConn.beforeSend", ctl.loginMsg.RunID)
 	select {
 	case ctl.workConnCh <- conn:
 		xl.Debugf("new work connection registered")
@@ -262,6 +264,7 @@ func (ctl *Control) GetWorkConn() (workConn net.Conn, err error) {
 	}()
 
 	var ok bool
+	verifhook.At("server.control.getWorkConn.beforeTake", ctl.loginMsg.RunID)
 	// get a work connection from the pool
 	select {
 	case workConn, ok = <-ctl.workConnCh:
@@ -323,8 +326,10 @@ func (ctl *Control) worker() {
 	go ctl.msgDispatcher.Run()
 
 	<-ctl.msgDispatcher.Done()
+	verifhook.At("server.worker.afterDispatcherDone", ctl.loginMsg.RunID)
 	ctl.conn.Close()
 
+	verifhook.At("server.worker.beforeClosePool", ctl.loginMsg.RunID)
 	ctl.mu.Lock()
 	defer ctl.mu.Unlock()
 
@@ -355,6 +360,7 @@ func (ctl *Control) worker() {
 
 	metrics.Server.CloseClient()
 	xl.Infof("client exit success")
+	verifhook.At("server.worker.beforeDone", ctl.loginMsg.RunID)
 	close(ctl.doneCh)
 }
 
@@ -503,15 +509,18 @@ func (ctl *Control) RegisterProxy(pxyMsg *msg.NewProxy) (remoteAddr string, err 
 		}()
 	}
 
+	verifhook.At("server.registerProxy.afterQuota", ctl.loginMsg.RunID, pxyMsg.ProxyName)
 	if ctl.pxyManager.Exist(pxyMsg.ProxyName) {
 		err = fmt.Errorf("proxy [%s] already exists", pxyMsg.ProxyName)
 		return
 	}
+	verifhook.At("server.registerProxy.afterExist", ctl.loginMsg.RunID, pxyMsg.ProxyName)
 
 	remoteAddr, err = pxy.Run()
 	if err != nil {
 		return
 	}
+	verifhook.At("server.registerProxy.afterRun", ctl.loginMsg.RunID, pxyMsg.ProxyName)
 	defer func() {
 		if err != nil {
 			pxy.Close()
@@ -526,6 +535,7 @@ func (ctl *Control) RegisterProxy(pxyMsg *msg.NewProxy) (remoteAddr string, err 
 	ctl.mu.Lock()
 	ctl.proxies[pxy.GetName()] = pxy
 	ctl.mu.Unlock()
+	verifhook.At("server.registerProxy.afterAdd", ctl.loginMsg.RunID, pxyMsg.ProxyName)
 	return
 }
 
